@@ -11,7 +11,7 @@ EXTENDS Ps3NetSrv, Json
 
 N(p, kind, size, cid, target) ==
   [p |-> p, kind |-> kind, size |-> size, cid |-> cid, vcid |-> cid, vsize |-> size,
-   mtime |-> 1500000000 + Len(p) * 100 + (PInt(size) % 97), ctime |-> 1600000000, target |-> target, marks |-> << >>, unk |-> FALSE]
+   mtime |-> 1500000000 + Len(p) * 100 + (PInt(size) % 97), ctime |-> 1600000000, target |-> target, marks |-> << >>, unk |-> FALSE, any |-> FALSE]
 
 MCInitFs == {
   N(<< >>, "dir", PZero, "", << >>),
